@@ -117,3 +117,13 @@ def build(u):
         n += f.rewrite(r'\b([a-z_]+(?:\.\d)?) == Some\(([a-z_]+|"[a-z]*")\)', r'verif_opt_str_eq(\1, \2)', expect=2)
         u.count('R-shim-call', n)
     emit_method(u, S, r'SourceView\b', 'get_original_function_name', 'sourceview::SourceView::get_original_function_name', prep=prep_gofn)
+
+    # the position-based entry point on a regular map: lookup_token (proved in u2) then the walk
+    import_method(u, T, r'SourceMap\b', 'lookup_token', 'types::SourceMap::lookup_token', 'u2_lookup.ctr', 'u2_lookup')
+
+    def prep_sm_gofn(f):
+        u.count('R-seq', f.rewrite(r'\bsv: &SourceView\b', 'sv: &mut SourceView', expect=1))
+        # R-and-then: `X.and_then(|p| E)` is `match X { Some(p) => E, None => None }` (the definition of Option::and_then; the closure would capture the `&mut` view)
+        u.count('R-and-then', f.rewrite(r'(?s)self\.lookup_token\(line, col\)\s*\.and_then\(\|token\| (sv\.get_original_function_name\(token, minified_name\))\)',
+                                        r'match self.lookup_token(line, col) { Some(token) => \1, None => None }', expect=1))
+    emit_method(u, T, r'SourceMap\b', 'get_original_function_name', 'types::SourceMap::get_original_function_name', prep=prep_sm_gofn)
